@@ -14,11 +14,12 @@ claimed.update({
  "C11": ("AVL preservation by set/remove with exact stored heights and sizes, fib(h+2) <= n, lookup by key = (rank, value), lookup by rank = i-th pair: proved; height/size/rank answers compared with the model, AVL real-valued bound and storage-read counts (cache 0) checked on the implementation", "5.C11"),
  "C12": ("the raw storage after every step is decoded by the model's proved-inverse decoder and audited against the model's retained versions (every retained tree rebuilt through root markers and child links equals the reference, no unreachable node, index = latest pairs); orphan-diff exactness proved", "5.C12"),
 })
+claimed["C18"] = ("the contract is the sorted-map machine kvStep; proved: namespace = half-open range up to the cut incremented prefix for every non-empty prefix (0xFF runs included) and the counterexample for the former same-length bound, no empty key / nil value stored, reads pure; MemDB, GoLevelDB, PrefixDB over both are run on identical generated programs (0x00/0xFF alphabet, foreign neighbour keys, batches) and compared with the contract and with each other", "5.C18")
 na = {
  "C05": "check not built yet in this session (crash-cut enumeration planned, DESIGN 5.C05)",
  "C06": "check not built yet in this session (schedule exploration via verif yield hooks planned, DESIGN 5.C06)",
  "C13": "check not built yet in this session", "C15": "check built (correspondence with the executable change-set specification); theorems pending, not claimed yet", "C16": "check not built yet in this session",
- "C17": "check not built yet in this session", "C18": "check not built yet in this session",
+ "C17": "check not built yet in this session",
  "C19": "check not built yet in this session", "C20": "check not built yet in this session",
 }
 import os
